@@ -30,8 +30,16 @@ func FormatU128(v city.U128) string {
 }
 
 // readBlock reads next compressed data into raw and decompresses into data.
-func (r *Reader) readBlock() error {
+func (r *Reader) readBlock() (rerr error) {
 	r.pos = 0
+	defer func() {
+		if rerr != nil {
+			// Nothing of a rejected or incomplete block may be served by the
+			// next Read: neither the buffer sized (and zero-filled) for it
+			// nor the payload of the previous block that is still in there.
+			r.data = r.data[:0]
+		}
+	}()
 
 	_ = r.header[headerSize-1]
 	if _, err := io.ReadFull(r.reader, r.header); err != nil {
